@@ -127,6 +127,8 @@ def flow() -> Route:
 def source(tokeniser: 'Tokeniser') -> Generator[Flow4Source | Flow6Source, None, None]:
     """Update source to handle both IPv4 and IPv6 flows."""
     data: str = tokeniser()
+    # the family of the rule is the family of its prefixes (what _generic_condition checks the components against)
+    tokeniser.afi = AFI.ipv6 if ':' in data else AFI.ipv4
     # Check if it's IPv4
     if data.count('.') == IPv4.DOT_COUNT and data.count(':') == 0:
         ip: str
@@ -148,6 +150,8 @@ def source(tokeniser: 'Tokeniser') -> Generator[Flow4Source | Flow6Source, None,
 def destination(tokeniser: 'Tokeniser') -> Generator[Flow4Destination | Flow6Destination, None, None]:
     """Update destination to handle both IPv4 and IPv6 flows."""
     data: str = tokeniser()
+    # the family of the rule is the family of its prefixes (what _generic_condition checks the components against)
+    tokeniser.afi = AFI.ipv6 if ':' in data else AFI.ipv4
     # Check if it's IPv4
     if data.count('.') == IPv4.DOT_COUNT and data.count(':') == 0:
         ip: str
